@@ -1,2 +1,82 @@
-(* placeholder until the proofs land *)
-From JS Require Import Model.Number.
+(* C13 - decimal numbers: grammar, exact comparison, String(), LengthOfFractionalPart().
+   Model: Model/Number.v (json/scanner.go, json/number.go, bytes.ParseUint/ParseInt after the fix: commits).
+   Spec: Spec/Decimal.v (decomposition of the text = RFC 8259 section 6; values m * 10^k compared in Z).
+   Only statements closed by `exact`, each followed by Print Assumptions. *)
+From Coq Require Import List ZArith NArith Bool.
+From JS Require Import Base.Res Spec.Decimal Model.Number Proofs.DigitArith Proofs.NumberCmp Proofs.NumberNorm
+  Proofs.NumberScan Proofs.NumberMain.
+Import ListNotations.
+Local Open Scope Z_scope.
+
+(* Whatever NewNumber accepts is a JSON number (for EVERY byte string, no side condition). *)
+Theorem C13_grammar_sound : forall s n, nscan s = Ok n -> json_number s = true /\ known_F13b s = false.
+Proof. exact scan_sound. Qed.
+Print Assumptions C13_grammar_sound.
+
+(* Every JSON number is accepted - except the recorded, unrepaired finding F13b (integer part "0"
+   directly followed by an exponent), for exponents up to 2^40 and texts up to 2^40 bytes (beyond that the
+   Go code allocates |exponent| bytes / wraps int64: finding F13e, property C02) - and the result is in
+   normal form and denotes the value of the text. *)
+Theorem C13_grammar_complete : forall s,
+  json_number s = true -> known_F13b s = false -> exp_small s ->
+  exists n, nscan s = Ok n /\ normal n /\ deq (denote n) (value_of s).
+Proof. exact scan_complete. Qed.
+Print Assumptions C13_grammar_complete.
+
+Theorem C13_value : forall s n, exp_small s -> nscan s = Ok n -> normal n /\ deq (denote n) (value_of s).
+Proof. exact scan_value. Qed.
+Print Assumptions C13_value.
+
+(* Cmp on normal forms is the exact comparison of the denoted values ... *)
+Theorem C13_cmp : forall a b, normal a -> normal b -> ncmp a b = cmp_to_Z (dcmp (denote a) (denote b)).
+Proof. exact ncmp_exact. Qed.
+Print Assumptions C13_cmp.
+
+(* ... hence two accepted texts compare like the values they denote, however they are written
+   (trailing zeros, exponent shifts, -0 vs 0). *)
+Theorem C13_cmp_texts : forall s1 s2 n1 n2, exp_small s1 -> exp_small s2 ->
+  nscan s1 = Ok n1 -> nscan s2 = Ok n2 -> ncmp n1 n2 = cmp_to_Z (dcmp (value_of s1) (value_of s2)).
+Proof. exact cmp_texts. Qed.
+Print Assumptions C13_cmp_texts.
+
+Theorem C13_equal : forall a b, normal a -> normal b -> (n_equal a b = true <-> dcmp (denote a) (denote b) = Eq).
+Proof. exact n_equal_exact. Qed.
+Print Assumptions C13_equal.
+Theorem C13_gt : forall a b, normal a -> normal b -> (n_gt a b = true <-> dcmp (denote a) (denote b) = Gt).
+Proof. exact n_gt_exact. Qed.
+Print Assumptions C13_gt.
+Theorem C13_gte : forall a b, normal a -> normal b -> (n_gte a b = true <-> dcmp (denote a) (denote b) <> Lt).
+Proof. exact n_gte_exact. Qed.
+Print Assumptions C13_gte.
+Theorem C13_lt : forall a b, normal a -> normal b -> (n_lt a b = true <-> dcmp (denote a) (denote b) = Lt).
+Proof. exact n_lt_exact. Qed.
+Print Assumptions C13_lt.
+Theorem C13_lte : forall a b, normal a -> normal b -> (n_lte a b = true <-> dcmp (denote a) (denote b) <> Gt).
+Proof. exact n_lte_exact. Qed.
+Print Assumptions C13_lte.
+
+(* String() is a JSON number that denotes the same value *)
+Theorem C13_string : forall n, normal n ->
+  json_number (to_string n) = true /\ known_F13b (to_string n) = false /\ deq (value_of (to_string n)) (denote n).
+Proof. exact to_string_ok. Qed.
+Print Assumptions C13_string.
+
+(* LengthOfFractionalPart() = number of significant fraction digits: value * 10^k is an integer for
+   k = frac_len (val (nnat n) itself) and for no smaller k *)
+Theorem C13_fraclen : forall n, normal n ->
+  0 <= frac_len n /\ forall k, 0 <= k < frac_len n -> ~ (10 ^ (frac_len n - k) | val (nnat n)).
+Proof. exact frac_len_minimal. Qed.
+Print Assumptions C13_fraclen.
+
+(* the full grammar statement is false of the faithful model: witness for finding F13b ("0e5") *)
+Theorem C13_grammar_full_refuted :
+  exists s, json_number s = true /\ known_F13b s = true /\ nscan s = Err 1705.
+Proof. exists [48; 101; 53]%N. vm_compute. auto. Qed.
+Print Assumptions C13_grammar_full_refuted.
+
+(* non-vacuity: the hypotheses are met by concrete texts, e.g. "-12.50e-1" and "1.250" *)
+Example C13_example :
+  json_number [45;49;50;46;53;48;101;45;49]%N = true /\ known_F13b [45;49;50;46;53;48;101;45;49]%N = false /\
+  (exists n, nscan [45;49;50;46;53;48;101;45;49]%N = Ok n /\ to_string n = [45;49;46;50;53]%N /\ frac_len n = 2) /\
+  (exists a b, nscan [49;46;50;53;48]%N = Ok a /\ nscan [49;50;53;48;101;45;51]%N = Ok b /\ ncmp a b = 0).
+Proof. vm_compute. repeat split; eexists; repeat split; try eexists; repeat split. Qed.
